@@ -25,7 +25,7 @@ ASSUMPTIONS = [
 ]
 
 NCON = 8
-NLEAF = 9
+NLEAF = 10
 BS = chr(92)
 
 
@@ -60,6 +60,8 @@ def leaf_query(Qi, leaf, s):
     if leaf == 8:  # interval passed as a function argument
         from pypika_tortoise.terms import Function
         return q.select(t.k, Function("DATE_ADD", t.v, Interval(days=3)))
+    if leaf == 9:  # JSON document (dict) in a criterion: json.dumps escapes need the dialect's string rules on top
+        return q.select(t.k, t.v).where(t.b == {"k": 'a"b' + BS})
     raise AssertionError(leaf)
 
 
@@ -113,6 +115,12 @@ def leaf_reference(d, leaf, s):
         return "INTERVAL '3' DAY" if d in (1, 5) else "INTERVAL '3 DAY'"
     if leaf == 6:
         return q + ('k"`x'.replace(q, q + q)) + q
+    if leaf == 9:
+        import json
+        enc = json.dumps({"k": 'a"b' + BS}).replace("'", "''")
+        if d == 1:
+            enc = enc.replace(BS, BS + BS)
+        return q + "b" + q + "='" + enc + "'"
     return None
 
 
@@ -177,13 +185,13 @@ def check_nested(name, d, con, depth, leaf, par, s, args):
     timeout={"quick": 200, "thorough": 600},
     witness=[dict(d=1, con=0, depth=1, leaf=0, par=False), dict(d=2, con=5, depth=2, leaf=4, par=True),
              dict(d=5, con=4, depth=1, leaf=5, par=False)],
-    doc="5 non-generic dialect classes x 8 nesting constructs x depth 1-2 x 9 dialect-sensitive leaves x inline / "
+    doc="5 non-generic dialect classes x 8 nesting constructs x depth 1-2 x 10 dialect-sensitive leaves x inline / "
         "parameterised: nested parts built generically render exactly like nested parts built with the dialect's classes, "
         "and the leaf shows the dialect's reference form",
 )
 def c08_nested(d: int, con: int, depth: int, leaf: int, par: bool) -> int:
     """
-    bound: 1 <= depth <= 2 and 0 <= leaf <= 8
+    bound: 1 <= depth <= 2 and 0 <= leaf <= 9
     """
     depth, leaf, par = pin(depth - 1, 2) + 1, pin(leaf, NLEAF), bool(par)
     with _NoTracing():
